@@ -282,8 +282,8 @@ fn write_item(r: &mut ResponseUnit, it: &[u8]) {
         }
         Plan::Enum(v) => r.data(v),
         Plan::List(v) => {
-            // alternately through the growable and the fixed-capacity list type
-            if alt() % 2 == 0 {
+            // through the fixed-capacity list type when the first element is odd, else through the growable one
+            if v[0] % 2 != 0 {
                 let mut av = ArrayVec::<i32, 8>::new();
                 for x in v.iter().take(8) {
                     av.push(*x);
